@@ -259,7 +259,9 @@ def check_C09(ctx, deep=False):
                     if idx == 1 and sep:
                         e.send(sep)
                     e.send("position startpos")
-                    go = "go wtime %d btime %d winc %d binc %d" % (clock, clock, inc, inc)
+                    # the opponent's clock is a decoy with a plan of its own (800 ms): a plan made from the
+                    # wrong side, or from a board that is not the one just set up, shows in the delay
+                    go = "go wtime %d btime %d winc %d binc %d" % (clock, 30100, inc, 0)
                     if mtg:
                         go += " movestogo %d" % mtg
                     planned = plan(k, clock, inc, mtg)
